@@ -70,6 +70,9 @@ CFGS = {
     "GEN_users": dict(kind="gen", doc="two users whose names differ in case only, on one 5-tuple: ownership checks on every method; U1 is over its allocation quota",
                       Users='{"u1", "U1"}', QuotaDenied='{"U1"}', PeerIPs='{"A"}', PeerPorts='{1}', ChanNums='{16384}',
                       LifeReqs='<- MCLifeAbsent0', Txids='{"t1", "t2"}', MaxDepth='5'),
+    "GEN_users2": dict(kind="gen", doc="two users on one 5-tuple, nobody over quota: a second user's Allocate on a 5-tuple that holds an allocation is a mismatch (437), never a second allocation",
+                       Users='{"u1", "u2"}', PeerIPs='{"A"}', PeerPorts='{1}', ChanNums='{16384}',
+                       LifeReqs='<- MCLifeAbsent0', Txids='{"t1", "t2"}', MaxDepth='4'),
     "GEN_quota": dict(kind="gen", doc="user q1 may hold one allocation at a time (counting quota handler): retransmission and second Allocate are answered before the quota is asked",
                       Clients='{"c1", "c2"}', Users='{"q1", "u1"}', PeerIPs='{"A"}', PeerPorts='{1}', ChanNums='{16384}',
                       LifeReqs='<- MCLifeAbsent0', Txids='{"t1", "t2"}', MaxDepth='5'),
